@@ -43,10 +43,15 @@ def probe(acc, world, trace, meta, props):
     wf = world.wf
     restarted = any(a[0] == "prestart" for a in trace)
 
-    def viol(prop, what, observed, **sig):
+    stale = set(LB.stale_tracked(world))
+
+    def viol(prop, what, observed, blame=(), **sig):
+        """blame: the targets the violation is about. `stale_only` is true when every one of them holds a tracked id issued by a
+        previous pool incarnation — the signature of the known id-reuse finding (D7); anything else is a different violation."""
         if prop not in props:
             return
-        acc.violation(sig=dict(prop=prop, backend="local", what=what, stale_ids=bool(LB.stale_tracked(world)), **sig), case=dict(kind="local", prop=prop, meta=meta, trace=trace), observed=observed,
+        blame = set(blame)
+        acc.violation(sig=dict(prop=prop, backend="local", what=what, stale_only=bool(blame) and blame <= stale, **sig), case=dict(kind="local", prop=prop, meta=meta, trace=trace), observed=observed,
                       msg=f"[{prop}] [{meta['wf']}/local] after {trace}: {what}: {json.dumps(observed, default=str)[:500]}")
 
     pl = CW.ref_plan(world)
@@ -65,7 +70,7 @@ def probe(acc, world, trace, meta, props):
         return None
     if rows != pl["status"]:
         diff = {k: dict(shown=rows.get(k), expected=v) for k, v in pl["status"].items() if rows.get(k) != v}
-        viol("C08", "row", dict(diff=diff, tracked=(world.tracked or {}).get("local"), pool=world.pool["summary"]["tasks"], aliased=alias_info(world)))
+        viol("C08", "row", dict(diff=diff, tracked=(world.tracked or {}).get("local"), pool=world.pool["summary"]["tasks"], aliased=alias_info(world)), blame=diff)
     exp_tracked = {}
     for t in wf.targets:
         lt = LB.latest_task(world.pool, t.name)
@@ -73,7 +78,7 @@ def probe(acc, world, trace, meta, props):
             exp_tracked[t.name] = lt[1]
     tracked = (world.tracked or {}).get("local") or {}
     if tracked != exp_tracked:
-        viol("C08", "tracked", dict(tracked=tracked, expected=exp_tracked))
+        viol("C08", "tracked", dict(tracked=tracked, expected=exp_tracked), blame={k for k in set(tracked) | set(exp_tracked) if tracked.get(k) != exp_tracked.get(k)})
     bad = [l["__kind__"] for l in lines + lines_d if l["__kind__"] not in ("get_task_states", "close")]
     if bad or after_d.semantic() != world.semantic():
         viol("C05", "preview sent requests or changed state", dict(requests=bad))
@@ -91,7 +96,8 @@ def probe(acc, world, trace, meta, props):
     enq = [l for c in conns for l in c if l["__kind__"] == "enqueue_task"]
     submitted = sorted(l["name"] for l in enq)
     if would is None or not (would == from_status == submitted):
-        viol("C05", "status / dry-run / run disagree", dict(from_status=from_status, dry_run=would, run=submitted))
+        sets = [set(from_status), set(would or ()), set(submitted)]
+        viol("C05", "status / dry-run / run disagree", dict(from_status=from_status, dry_run=would, run=submitted), blame=set.union(*sets) - set.intersection(*sets))
     # ---- C07: dependency ids in each enqueue
     cur_inc = world.pool["summary"]["incarnation"]
     state_before = {t["name"]: t for t in world.pool["summary"]["tasks"]}
@@ -110,7 +116,8 @@ def probe(acc, world, trace, meta, props):
                 if st is not None and st["state"] in ("SUBMITTED", "RUNNING"):
                     must.append(lt[1])
         if sorted(l["deps"], key=str) != sorted(must, key=str) or any(not isinstance(x, int) or isinstance(x, bool) for x in l["deps"]):
-            viol("C07", "enqueue_task names the wrong prerequisites", dict(target=l["name"], deps=l["deps"], must_wait=must))
+            viol("C07", "enqueue_task names the wrong prerequisites", dict(target=l["name"], deps=l["deps"], must_wait=must),
+                 blame={d for d in rel["dependencies"].get(l["name"], ()) if d in stale} or {l["name"]})
         new_tid[l["name"]] = next_tid
         next_tid += 1
     acc.case(key=None, outcome=f"local rows={sorted(set(rows.values()))} sub={len(submitted)}", nontrivial=False)
@@ -143,14 +150,18 @@ def probe(acc, world, trace, meta, props):
             if still:
                 viol("C17", "a selected target's own live task survived the cancel", dict(args=args, still=sorted(still), requests=got, pool=w_c.pool["summary"]["tasks"]), sel=label)
             elif rows_c != pl_c["status"]:
-                viol("C17", "rows wrong after cancel", dict(args=args, rows=rows_c, expected=pl_c["status"], pool=w_c.pool["summary"]["tasks"], aliased=alias_info(world)), sel=label)
+                viol("C17", "rows wrong after cancel", dict(args=args, rows=rows_c, expected=pl_c["status"], pool=w_c.pool["summary"]["tasks"], aliased=alias_info(world)), sel=label,
+                     blame={k for k in pl_c["status"] if rows_c.get(k) != pl_c["status"][k]})
             # nobody else's task was cancelled
             before = {t["tid"]: t["state"] for t in world.pool["summary"]["tasks"]}
             afterst = {t["tid"]: (t["state"], t["name"]) for t in w_c.pool["summary"]["tasks"]}
             collateral = sorted(name for tid, (st, name) in afterst.items() if st == "CANCELLED" and before.get(tid) != "CANCELLED" and name not in sel
                                 and not _downstream_of(rel, name, sel))
             if collateral:
-                viol("C17", "cancel hit a task of a target that was not selected", dict(args=args, collateral=collateral, tracked=tracked, pool=world.pool["summary"]["tasks"], aliased=alias_info(world)), sel=label)
+                # blame the selected targets whose (stale) tracked id is the id of the task that was hit
+                hit_ids = {tid for tid, (st, name) in afterst.items() if name in collateral and st == "CANCELLED" and before.get(tid) != "CANCELLED"}
+                viol("C17", "cancel hit a task of a target that was not selected", dict(args=args, collateral=collateral, tracked=tracked, pool=world.pool["summary"]["tasks"], aliased=alias_info(world)), sel=label,
+                     blame={n for n in sel if tracked.get(n) in hit_ids} or set(collateral))
     return w_run
 
 
